@@ -16,7 +16,7 @@ from easynetwork.protocol import StreamProtocol
 from easynetwork.serializers.abc import AbstractIncrementalPacketSerializer
 
 from .. import tlsrig
-from ..core import Ctx, Deadlock, HorizonHit, JobResult, Violation, digest, explore
+from ..core import Ctx, Deadlock, DivergenceError, HorizonHit, JobResult, Violation, digest, explore
 from ..world import VSelector, World
 
 
@@ -200,7 +200,13 @@ def run_job(job: dict) -> JobResult:
             if bad is not None and (bad not in found or len(ctx.choices) < len(found[bad][0].choices)):
                 found[bad] = (ctx, obs)
 
-        stats = explore(lambda ctx, cfg=cfg: run(ctx, cfg), bound=bound, check=check, max_runs=20000)
+        try:
+            stats = explore(lambda ctx, cfg=cfg: run(ctx, cfg), bound=bound, check=check, max_runs=20000)
+        except DivergenceError as exc:
+            # the number of waits depends on the kernel's socket-buffer accounting; should a replayed prefix ever see fewer waits than
+            # recorded, this configuration's exploration is abandoned and reported as a cap (never as a verdict)
+            res.caps.append(f"tls: kernel buffering not reproducible for {cfg['shape']}/{cfg['size']}/T={cfg['T']} ({exc})")
+            continue
         res.transitions += stats["points"]
         if stats["cap_hit"]:
             res.caps.append("tls: max_runs")
